@@ -160,6 +160,20 @@ fn main() {
         };
         emit("write_all.after-swallowed-failure", format!("{failed}|{r}|{}", dump(&lm)), "true|Ok(())|write[97, 98, 99];write[99]".to_string());
     }
+    // ---- provided methods keep running the upstream default after the ORDERED part of a mixed script has been used up
+    {
+        let lm = log_of();
+        let l = lm.clone();
+        let mut m = Unimock::new((
+            WriteMock::flush.next_call(matching!()).answers_arc(Arc::new(|_| Ok(()))),
+            WriteMock::write.each_call(matching!(_)).answers_arc(Arc::new(move |_, buf: &[u8]| { push(&l, format!("write{:?}", buf)); Ok(buf.len().min(2)) })).at_least_times(0),
+        )).no_verify_in_drop();
+        let r = match std::panic::catch_unwind(std::panic::AssertUnwindSafe(|| { let f = res(Write::flush(&mut m)); let w = res(Write::write_all(&mut m, b"abc")); format!("{f}|{w}") })) {
+            Ok(r) => r,
+            Err(p) => format!("panicked:{}", p.downcast_ref::<String>().cloned().unwrap_or_default().lines().next().unwrap_or("")),
+        };
+        emit("write_all.after-ordered-script-finished", format!("{r}|{}", dump(&lm)), "Ok(())|Ok(())|write[97, 98, 99];write[99]".to_string());
+    }
     for k in 0..n {
       let mut rng_iter = Rng(rng.next());
       let res_iter = std::panic::catch_unwind(std::panic::AssertUnwindSafe(|| {
